@@ -2310,7 +2310,9 @@ func (p *Parser) gotStmtPipe(s *Stmt, binCmd bool) *Stmt {
 		p.arithmExpCmd(s)
 	}
 	if s.Cmd == nil && len(s.Redirs) == 0 {
-		return nil // no statement found
+		// No statement found; hand back the comments we took for it.
+		p.accComs = append(s.Comments, p.accComs...)
+		return nil
 	}
 	if redirsStart > 0 && s.Cmd != nil {
 		if _, ok := s.Cmd.(*CallExpr); !ok {
